@@ -118,6 +118,11 @@ func judgeRequests(st *stats, reqs []recorded, base parts, plain bool, kind stri
 	if plain {
 		scheme = "http"
 	}
+	// the one documented host fix-up (registry.Reference.Host): docker.io is served by registry-1.docker.io
+	host := base.Registry
+	if host == "docker.io" {
+		host = "registry-1.docker.io"
+	}
 	hits := 0
 	for _, rq := range reqs {
 		u := rq.URL
@@ -131,8 +136,8 @@ func judgeRequests(st *stats, reqs []recorded, base parts, plain bool, kind stri
 		if u.Scheme != scheme {
 			bad("scheme", "scheme is not the configured "+scheme)
 		}
-		if u.Host != base.Registry || u.User != nil || u.Opaque != "" || (rq.Host != "" && rq.Host != base.Registry) {
-			bad("host", fmt.Sprintf("host %q (request host %q, user %v) is not the registry %q", u.Host, rq.Host, u.User, base.Registry))
+		if u.Host != host || u.User != nil || u.Opaque != "" || (rq.Host != "" && rq.Host != host) {
+			bad("host", fmt.Sprintf("host %q (request host %q, user %v) is not the registry host %q", u.Host, rq.Host, u.User, host))
 		}
 		if u.RawQuery != "" || u.ForceQuery {
 			bad("query", "URL carries a query: "+u.RawQuery)
@@ -155,8 +160,8 @@ func judgeRequests(st *stats, reqs []recorded, base parts, plain bool, kind stri
 			bad("reference:"+kind, fmt.Sprintf("reference slot holds %q, admissible here: %q", x, allowed))
 			continue
 		}
-		if rq.Raw != scheme+"://"+base.Registry+prefix+x {
-			bad("raw", "URL text is not "+scheme+"://"+base.Registry+prefix+x)
+		if rq.Raw != scheme+"://"+host+prefix+x {
+			bad("raw", "URL text is not "+scheme+"://"+host+prefix+x)
 		}
 		if x == want {
 			hits++
@@ -213,7 +218,17 @@ func runCase(phase string, i int) worker.Result {
 	if phase == "repo" {
 		dg = genValidDigest(rng)
 	}
-	base, baseStr := genBase(rng, func() string { return genRegistry(rng) }, func() string { return genRepository(rng) }, "basetag", genValidDigest(rng))
+	base, baseStr := genBase(rng, func() string {
+		if rng.IntN(5) == 0 { // Docker Hub names: docker.io has a documented host alias, the others none
+			return pick(rng, []string{"docker.io", "docker.io", "registry-1.docker.io", "index.docker.io"})
+		}
+		return genRegistry(rng)
+	}, func() string {
+		if rng.IntN(3) == 0 { // single-component repository
+			return pick(rng, []string{"alpine", "hello-world", "busybox", "a", "library", "x_y.z"})
+		}
+		return genRepository(rng)
+	}, "basetag", genValidDigest(rng))
 	repo, err := remote.NewRepository(baseStr)
 	if err != nil {
 		res.Violate("repo:new-repository", fmt.Sprintf("NewRepository(%q): %v", baseStr, err), map[string]any{"base": baseStr})
@@ -368,6 +383,10 @@ func runCase(phase string, i int) worker.Result {
 	}
 	res.Key = fmt.Sprintf("url|%v|%s|%d|%s|%d|%s", plain, shape(base.Registry, 12), strings.Count(base.Repository, "/"), shape(tag, 8), algIdx, strings.Join(fl, ","))
 	res.NT = nreq > 0 && judgedAccepted > 0
+	if strings.HasSuffix(base.Registry, "docker.io") {
+		res.Observe("url_docker_hub_bases", fmt.Sprintf("%s/%d-component", base.Registry, strings.Count(base.Repository, "/")+1))
+		res.Count("url_docker_hub_cases", 1)
+	}
 	if i%300 == 0 {
 		res.Sample = map[string]any{"phase": "url", "base": baseStr, "plain_http": plain, "inputs": inputs[:9], "requests": nreq}
 	}
